@@ -18,7 +18,7 @@ JOBS = {'quick': 4, 'thorough': 16}
 REQUIRED_MONITORS = ('equivariance_generic', 'invariants_axis_free', 'invariants_two_atom', 'distance_one_atom')
 REQUIRED_CLASSES = ('ref:1-atom', 'ref:2-atoms', 'ref:general', 'geometry:linear-z', 'geometry:partial-collinear',
                     'geometry:linear-moved', 'motion:generic', 'motion:translation', 'motion:rotation', 'motion:tiny',
-                    'motion:nearpi', 'motion:large-translation', 'motion:half-turn-axis', 'motion:bond-flip', 'motion:near-previous')
+                    'motion:nearpi', 'motion:large-translation', 'motion:half-turn-axis', 'motion:bond-flip', 'motion:near-previous', 'anchor:near-collinear-judged')
 RULE = ('(reference, target, s) as in C01 plus references of 1 and 2 atoms; each mapped on M rigidly moved copies (M = 8 '
         'quick, 64 thorough; rotation classes generic/tiny/near-pi/identity x translations up to +-100 nm). Non-trivial: '
         'the motion is not the identity. distinct = distinct (reference class, geometry, motion class, s class, size bucket)')
@@ -82,6 +82,43 @@ def gen_motion(rng, cls, pos=None):
     return gen.random_rotation(rng), rng.choice([-100.0, 100.0], 3)
 
 
+def make_near_collinear(rng, n, edges, pos):
+    """Bends some anchors until they are almost straight: sin of the angle (anchor; its two frame neighbours) between 1e-6
+    and 1e-3 - far above the threshold below which a frame counts as collinear (1e-8), far below ordinary geometry.
+    Returns the set of anchors changed (pos is edited in place)."""
+    anchors = list(ref.anchors_of(n, edges))
+    adj = gen.adjacency(n, edges)
+    anchors.sort(key=lambda a: -len(adj[a]))          # anchors with three or more bonds first
+    done, near = set(), set()
+    target, pos = pos, pos.copy()
+    for a in anchors[:max(1, len(anchors) // 2)]:
+        n1, n2 = ref.frame_neighbours(n, edges, a)
+        if {a, n1, n2} & done:
+            continue
+        d = rng.normal(size=3) if rng.random() < 0.6 else np.eye(3)[int(rng.integers(0, 3))] * rng.choice([-1.0, 1.0])
+        d = d / np.linalg.norm(d)
+        perp = np.cross(d, rng.normal(size=3))
+        perp = perp / np.linalg.norm(perp)
+        k1, k2 = rng.choice([-3, -2, -1, 1, 2, 3], 2, replace=False)
+        sin = 10.0 ** rng.uniform(-6, -3)
+        pos[n1] = pos[a] + d * float(k1) * 0.125 + perp * 0.125 * abs(float(k1)) * sin
+        pos[n2] = pos[a] + d * float(k2) * 0.125
+        done |= {a, n1, n2}
+        near.add(a)
+    if gen.min_pair_distance(pos) < 1e-3:
+        return set()
+    # every other anchor must still be well conditioned or exactly collinear
+    for a in ref.anchors_of(n, edges):
+        if a in near:
+            continue
+        n1, n2 = ref.frame_neighbours(n, edges, a)
+        sn = gen.sin_angle(pos[a], pos[n1], pos[n2])
+        if 1e-12 < sn < 1e-2:
+            return set()
+    target[:] = pos
+    return near
+
+
 def cyl(p, a, u):
     """(distance to a, coordinate along u, distance from the axis through a along u)"""
     d = p - a
@@ -102,12 +139,17 @@ def run_case(ctx, case):
             rcls, n = '2-atoms', 2
         else:
             rcls, n = 'general', None
+        near = set()
         if rcls == 'general':
             geometry = emmon.GEOMETRY[int(rng.integers(0, len(emmon.GEOMETRY)))]
             edges, pos, info = emmon.gen_reference(rng, geometry, nmax=25)
             if not ref.anchors_of(len(pos), edges) or not emmon.frames_ok(len(pos), edges, pos):
                 ctx.count('rejected_reference')
                 continue
+            if geometry == 'generic' and it % 2:
+                near = make_near_collinear(rng, len(pos), edges, pos)
+                if near:
+                    info = dict(info, geometry='near-collinear')
         else:
             geometry = 'small'
             info = {'geometry': 'small'}
@@ -178,13 +220,18 @@ def run_case(ctx, case):
                 if rcls == 'general':
                     n1_, n2_ = model.frames[a]
                     bondmin = min(np.linalg.norm(pos[n1_] - pos[a]), np.linalg.norm(pos[n2_] - pos[a]))
-                    sn = max(gen.sin_angle(pos[a], pos[n1_], pos[n2_]), 1e-300) if model.anchor_class(a) == 'generic' else 1.0
+                    sn = max(gen.sin_angle(pos[a], pos[n1_], pos[n2_]), 1e-300) if (model.anchor_class(a) == 'generic' or a in near) else 1.0
                     floor = 2.2e-16 * s * np.linalg.norm(tpos[k] - pos[a]) * (1 + np.abs(pos2).max()) / (bondmin * sn)
                     if floor > 2e-10:
                         ctx.count('skipped_float_floor')
                         continue
                 if rcls == 'general':
                     cls = model.anchor_class(a)
+                    if a in near:
+                        # the frame plane is defined (sin >= 1e-6, a hundred times the library's collinearity threshold)
+                        # but weakly: decidable wherever the floating-point floor computed above is below the tolerance
+                        cls = 'generic'
+                        ctx.hit('anchor:near-collinear-judged')
                     if cls == 'generic':
                         ctx.monitor('equivariance_generic')
                         err = float(np.linalg.norm(out2[k] - moved_base[k]))
